@@ -16,7 +16,7 @@ from aiortc.exceptions import InvalidStateError
 from aiortc.mediastreams import MediaStreamError
 from vt.enumcheck import Tally, pmap, result
 from vt.loop import HarnessError
-from vt.pcworld import PcWorld, PendingTrack, PacketTrack, sync_threads, encoded_frames
+from vt.pcworld import PcWorld, PendingTrack, PacketTrack, sync_threads, encoded_frames, hold_decoders, SyncThread, SyncQueue
 
 PID = "C19"
 HORIZON_S = 30.0
@@ -151,6 +151,14 @@ class Life:
             for t in a.getTransceivers()[:1]:
                 await t.stop()
             await asyncio.sleep(0.2 * self.pace)
+            # a peer that ends the association gracefully (aiortc itself never sends SHUTDOWN): A answers with SHUTDOWN ACK and
+            # waits for the SHUTDOWN COMPLETE under timer T2 - close() finds a shutdown in progress
+            if a.sctp is not None and a.sctp.state == "connected":
+                import aiortc.rtcsctptransport as S
+                chunk = S.ShutdownChunk()
+                chunk.cumulative_tsn = a.sctp._last_sacked_tsn
+                await a.sctp._handle_data(S.serialize_packet(a.sctp._remote_port, a.sctp._local_port, a.sctp._local_verification_tag, chunk))
+                await asyncio.sleep(0.3 * self.pace)
         except (InvalidStateError, ConnectionError):
             pass                    # a negotiation call that lost the race against close()
         except Exception as e:      # other failures of the racing call are recorded, the oracle is about close()
@@ -204,7 +212,21 @@ def life_length(shape):
         L.teardown()
 
 
-def run_cut(shape, cut, closer, drop=None, info=None):
+def live_timers(L):
+    """Timers still scheduled that do not belong to the harness's own tasks (asyncio.sleep of the life script / consumers)."""
+    out = []
+    for h in L.loop._scheduled:
+        if h._cancelled:
+            continue
+        fut = h._args[0] if h._args else None
+        owners = [getattr(cb[0], "__self__", None) for cb in (getattr(fut, "_callbacks", None) or [])]
+        if owners and all(o in L.harness_tasks for o in owners):
+            continue
+        out.append(getattr(h._callback, "__qualname__", repr(h._callback)))
+    return out
+
+
+def run_cut(shape, cut, closer, drop=None, info=None, hold=None):
     """Returns list of (clause, detail).  drop = index (counted from the moment close() starts) of ONE datagram that the
     network loses; info, when given, receives the number of datagrams sent from that moment on."""
     L = Life(shape)
@@ -212,7 +234,9 @@ def run_cut(shape, cut, closer, drop=None, info=None):
     loop.fire_one_timer = lambda: _fire_one_timer(loop)
     out = []
     try:
-        for _ in range(cut):
+        for i in range(cut):
+            if hold is not None and i == cut - hold:
+                hold_decoders()         # the decoders stall `hold` callbacks before close(): frames pile up behind them
             if not L.step():
                 break
         threads_before = {t for t in threading.enumerate()}
@@ -222,6 +246,8 @@ def run_cut(shape, cut, closer, drop=None, info=None):
                 pass
             # the peer vanishes: everything to and from B is silently lost from now on
             L.w.net.cut.update(c for c in L.w.net.conns)
+        if hold is not None and info is not None:
+            info["backlog"] = sum(q.outstanding for q in SyncQueue.registry)
         L.w.net.count_from = L.w.net.sent
         L.w.net.drop_index = drop
         closes = []
@@ -246,6 +272,17 @@ def run_cut(shape, cut, closer, drop=None, info=None):
                 out.append(("close/raises", "close() of %s raised %s: %s" % (s, type(e).__name__, e)))
         if out:
             return out
+        if hold is not None:
+            # close() has returned on both sides: no decoder thread may be running any more (it has a backlog to work through
+            # - whoever joined it must have waited for that)
+            alive = [t.name for t in SyncThread.registry if t.is_alive()]
+            if alive:
+                out.append(("leak/threads", "decoder threads still running when close() returned (backlog of frames when close() started): %r" % alive[:4]))
+                for q in SyncQueue.registry:
+                    q.slow = 0.0
+                for t in SyncThread.registry:
+                    threading.Thread.join(t, 10)
+                return out
         closed_sides = sorted(set(sides))
         for s in closed_sides:
             L.closed_at[s] = len(L.emitted[s])
@@ -335,6 +372,10 @@ def run_cut(shape, cut, closer, drop=None, info=None):
                         out.append(("state/track-not-ended", "%s (closed second): received %s track is %s after close()" % (other, tr.kind, tr.readyState)))
                 if late is not None and late.readyState != "closed":
                     out.append(("state/channel-not-closed", "%s: a channel created after the peer had closed is %s after close()" % (other, late.readyState)))
+        if all(L.pc[s].connectionState == "closed" for s in "AB"):
+            left = live_timers(L)
+            if left:
+                out.append(("leak/timers", "%d timers still scheduled after both sides closed and everything has run: %s" % (len(left), sorted(set(left))[:4])))
         unfinished = [t for t in L.consumers if not t.done()]
         if unfinished and all(L.pc[s].connectionState == "closed" for s in "AB"):
             out.append(("leak/track-consumer-blocked", "%d consumers of received tracks still blocked in recv() after close()" % len(unfinished)))
@@ -370,6 +411,26 @@ def task(args):
                         dict(kind="cut", shape=shape, closer=closer, cut=cut))
     if lo == 0:
         T.sample(dict(kind="interruption", shape=shape, closer=closer, cuts="%d..%d" % (lo, hi - 1)), limit=1)
+    return T
+
+
+def backlog_task(args):
+    """Decoder backlog: the decoder workers of the media shape are held from `hold` callbacks before the cut (frames queue up
+    behind them); close() on both sides at the cut must not return before the threads have ended."""
+    shape, lo, hi, hold = args
+    T = Tally()
+    for cut in range(lo, hi):
+        info = {}
+        T.case((shape, "backlog", cut))
+        T.count("cuts/decoder-backlog")
+        try:
+            v = run_cut(shape, cut, "both", hold=hold, info=info)
+        except HarnessError as e:
+            v = [("harness", str(e))]
+        T.count("decoder-backlog/frames-behind-the-held-workers", info.get("backlog", 0))
+        for clause, detail in v[:3]:
+            T.violation(clause + "/backlog", clause, "%s [shape %s, decoders held %d callbacks before close() by both, started after %d callbacks]" % (
+                detail, shape, hold, cut), dict(kind="cut", shape=shape, closer="both", cut=cut, hold=hold))
     return T
 
 
@@ -426,11 +487,15 @@ def run(tier, seed):
             for lo in range(0, n + 1, 8):
                 dtasks.append((shape, closer, lo, min(n + 1, lo + 8)))
     total.merge(pmap("props.c19", "drops_task", dtasks, seed=seed))
+    # decoder backlog at close(): 64 cuts (thorough: 350) of the short media shape; each held frame costs 0.1 s of real time once released
+    n = lengths.get("av-media+dc-short") or life_length("av-media+dc-short")
+    first, last = (400, 463) if tier == "quick" else (300, 650)     # (media flows there: 25-50 frames pile up behind the held workers)
+    total.merge(pmap("props.c19", "backlog_task", [("av-media+dc-short", lo, min(last + 1, lo + 8), 250) for lo in range(first, last + 1, 8)], seed=seed))
     total.transitions = total.evaluations
     return result(
         PID, total,
         rule="for each connection shape (%s) a scripted life (create tracks/data channels, offer/answer, connect with real DTLS and "
-             "SCTP over fake ICE, data messages, RTCP timers, the application closing one channel and stopping one transceiver itself; in the *-media shapes encoded Opus / VP8 "
+             "SCTP over fake ICE, data messages, RTCP timers, the application closing one channel and stopping one transceiver itself, the peer finally sending an SCTP SHUTDOWN; in the *-media shapes encoded Opus / VP8 "
              "packets flow every 20 / 40 ms through sender, SRTP, router, jitter buffer and the real decoder threads to a consumer) is stepped one event-loop callback at a time; for EVERY cut index 0..N "
              "(N = %s callbacks) and every closer in {A, B, both at once, A twice concurrently, A after its peer vanished} the run is "
              "replayed to the cut, close() is started and the default policy continues; oracle: close() completes within 30 virtual "
@@ -438,7 +503,9 @@ def run(tier, seed):
              "ended and their consumers released, no event emitted after completion, no task of the connection pending once both "
              "sides are closed, no decoder thread alive, no task died with an exception. Plus ONE network deviation after the cut: on the "
              "shapes %s, for every cut and closer in {A, B, both}, each single datagram sent once close() has started is lost in turn "
-             "(same oracle). distinct = (shape, closer, cut[, lost datagram])" % (
+             "(same oracle). Plus the decoder-backlog family: on the short media shape the decoder workers are held 250 callbacks before "
+             "the cut, close() by both: no decoder thread may be running when close() returns. No timer may be left scheduled once both sides "
+             "are closed. distinct = (shape, closer, cut[, lost datagram])" % (
                  ", ".join(shapes), lengths, ", ".join(dshapes)),
         assumptions=["aioice replaced by a fake connection; tracks produce no media or already encoded packets (no encoder executor threads, excluded by the "
                      "property); real decoder threads, in the media shapes synchronised with the stepping (the loop waits until "
@@ -451,7 +518,7 @@ def replay(rep):
     r = rep["replay"]
     bad = 0
     for cut in (r["cut"],):
-        v = run_cut(r["shape"], cut, r["closer"], drop=r.get("drop"))
+        v = run_cut(r["shape"], cut, r["closer"], drop=r.get("drop"), hold=r.get("hold"))
         print("shape %s closer %s cut %d:" % (r["shape"], r["closer"], cut))
         for clause, detail in v:
             print("FAILS clause=%s: %s" % (clause, detail))
